@@ -28,17 +28,17 @@ var vfEventNames = [...]string{"*", "user", "query", "member-join", "member-leav
 // VfC27_Invoke: a handler runs for an event exactly when its filter matches.
 //
 //vf:unwind 12
-//vf:bound inputs filter event from 9 names (all valid ones + an invalid one), filter name of 0..2 symbolic bytes; event: user event / query with a name of 0..2 symbolic bytes, or any of the 5 member events
+//vf:bound inputs filter event from 9 names (all valid ones + an invalid one), filter name of 0..2 (thorough 0..3) symbolic bytes; event: user event / query with a name of 0..2 (thorough 0..3) symbolic bytes, or any of the 5 member events
 func VfC27_Invoke() {
-	f := EventFilter{Event: vfEventNames[vfChoice("fevent", len(vfEventNames))], Name: vfString("fname", 2)}
+	f := EventFilter{Event: vfEventNames[vfChoice("fevent", len(vfEventNames))], Name: vfString("fname", 2+vfTier())}
 	var e serf.Event
 	var etype, ename string
 	switch vfChoice("ekind", 3) {
 	case 0:
-		ename = vfString("ename", 2)
+		ename = vfString("ename", 2+vfTier())
 		e, etype = serf.UserEvent{Name: ename}, "user"
 	case 1:
-		ename = vfString("ename", 2)
+		ename = vfString("ename", 2+vfTier())
 		e, etype = serf.VfNewQuery(ename, 1, 2, nil), "query"
 	case 2:
 		t := serf.EventMemberJoin + serf.EventType(vfChoice("mtype", 5))
@@ -123,9 +123,9 @@ func VfC27_Parse() {
 // exactly one trailing newline iff it is non-empty and not already terminated.
 //
 //vf:unwind 12
-//vf:bound inputs payload of 0..3 symbolic bytes
+//vf:bound inputs payload of 0..3 (thorough 0..4) symbolic bytes
 func VfC27_Payload() {
-	pl := vfBytes("payload", 3)
+	pl := vfBytes("payload", 3+vfTier())
 	orig := append([]byte{}, pl...)
 	p := &vfPipe{}
 	streamPayload(nil, p, pl)
